@@ -27,13 +27,16 @@ RULE = ("JSON values built from an adversarial alphabet (quotes, backslashes, \\
         "from random bit patterns, nested lists/maps with special keys; each value is encoded, compiled and evaluated "
         "by the real code (directly, as map key, inside a list, as the return / locals of a real ValueFunction, and as "
         "the resource of a real ResourceFunction whose POST body is read off an in-memory API double; also in the "
-        "first of two / three inline overlays, in create.overlay, in a ValueFunction overlay's return (each with other "
-        "static values in resource / later overlays that must arrive too), and in the inputs / state of a step of a "
+        "every position of every ordered combination of two / three inline and overlayRef (ValueFunction) overlays "
+        "(POST and PATCH body), in create.overlay (each with other static values in resource / labels / the other "
+        "overlays that must arrive too), and in the inputs / state of a step of a "
         "real one-step Workflow; on the UPDATE path: object created, drifted at one other path, PATCH body read, "
         "with the literal also under a literally written ownerReferences key; and through the real cache: a "
         "ResourceFunction / Workflow with a ValueFunction dependency offered twice with different static values, "
         "then re-prepared by koreo after the dependency is updated); maps holding Python-equal but JSON-different "
         "twin leaves (1 / true / 1.0, 0 / false, [1] / [true] ...) side by side or in nested maps, compared type-exactly; "
+        "map keys drawn also from near misses of the three x-koreo-* directive names (only the three exact names may "
+        "be missing from an object sent to the cluster); "
         "encoder outputs plus random mutations of them are lexed/parsed/evaluated by real celpy and by the model. "
         "A case is non-trivial when it contains a character that needs quoting, a numeral look-alike or a container; "
         "distinct by content")
@@ -199,7 +202,7 @@ def real_resource_function_post(v):
     drivers.reset_all()
     spec = {"apiConfig": {"apiVersion": "example.dev/v1", "kind": "Widget", "plural": "widgets", "name": "w",
                           "namespace": "default", "owned": False},
-            "resource": {"spec": {"v": v}},
+            "resource": {"metadata": {"labels": dict(LABELS)}, "spec": {"v": v}},
             "create": {"delay": 1}}
     try:
         p = drivers.run_async(drivers.prepare_rf("rf-c11", spec))
@@ -214,6 +217,9 @@ def real_resource_function_post(v):
         body = posts[0]["body"]
         if not isinstance(body, dict) or not isinstance(body.get("spec"), dict) or set(body["spec"]) != {"v"}:
             return ("shape", body)
+        for k, x in LABELS.items():
+            if _at(body, ("metadata", "labels", k)) != ("ok", x):
+                return ("sibling-static-value-lost-from-POST-body:metadata.labels." + k, None)
         return ("ok", body["spec"]["v"])
     except Exception as e:
         return ("raises", type(e).__name__)
@@ -283,16 +289,121 @@ def _rf_observe(spec, sides, value_functions=None):
     return ("ok", got)
 
 
-def real_rf_overlays(v, n_overlays=3):
-    """the literal in the FIRST of two or three inline overlays; the later overlays write other keys"""
-    overlays = [{"overlay": {"spec": {"v": v}}}, {"overlay": {"spec": {"o2": SIDE["o2"]}}}]
-    sides = [(("spec", "base"), SIDE["base"]), (("spec", "o2"), SIDE["o2"])]
-    if n_overlays >= 3:
-        overlays.append({"overlay": {"metadata": {"labels": {"o3": SIDE["o3"]}}}})
-        sides.append((("metadata", "labels", "o3"), SIDE["o3"]))
-    spec = {"apiConfig": dict(RF_API), "resource": {"spec": {"base": SIDE["base"]}}, "overlays": overlays,
-            "create": {"delay": 1}}
-    return _rf_observe(spec, sides)
+DIRECTIVES = ("x-koreo-compare-as-set", "x-koreo-compare-as-map", "x-koreo-compare-last-applied")
+# keys that look like the three documented directive names but are ordinary user data
+NEAR_DIRECTIVE_KEYS = ["x-koreo-team", "x-koreo-note", "x-koreo-", "x-koreo", "x-koreo-compare-as-setx",
+                       "x-koreo-compare-as-set ", " x-koreo-compare-as-map", "X-KOREO-COMPARE-AS-SET",
+                       "x_koreo_compare_as_set", "my-x-koreo-compare-as-set", "x-koreo-compare-as-set-not",
+                       "x-koreo-compare-last-applied.", "x-koreo-compare", "x-koreo-compare-as-",
+                       "koreo-compare-as-map", "x-koreo-compare-as-map/v2"]
+CHAIN_SIDES = [{"x-koreo-note": "kept", "n": 1, "l": [{"x-koreo-team": "in a list item"}]},
+               ["second", 2, None], "third \\ \"x\""]
+LABELS = {"x-koreo-team": "platform", "x-koreo-": "bare prefix", "tier": "backend"}
+
+
+def strip_exact_directives(v):
+    """what a ResourceFunction may legitimately leave out of the object it sends: exactly the three documented
+    directive keys (at any depth), nothing else"""
+    if isinstance(v, dict):
+        return {k: strip_exact_directives(x) for k, x in v.items() if k not in DIRECTIVES}
+    if isinstance(v, list):
+        return [strip_exact_directives(x) for x in v]
+    return v
+
+
+def chain_route(kinds, pos):
+    return "rf-overlays:" + ",".join(kinds) + f"@{pos}"
+
+
+def parse_chain_route(route):
+    kinds, pos = route[len("rf-overlays:"):].split("@")
+    return tuple(kinds.split(",")), int(pos)
+
+
+CHAIN_ROUTES = tuple(chain_route(kinds, pos)
+                     for n in (2, 3)
+                     for kinds in __import__("itertools").product(("inline", "ref"), repeat=n)
+                     for pos in range(n))
+
+
+def _check_body(body, v, sides, what):
+    st2, got = _at(body, ("spec", "v"))
+    if st2 != "ok":
+        return (f"missing-from-{what}-body", None)
+    for path, want in sides:
+        st3, other = _at(body, path)
+        if st3 != "ok" or delivered_ok(strip_exact_directives(want), other) is not None:
+            return (f"sibling-static-value-lost-from-{what}-body:" + ".".join(path), other)
+    return ("ok", got)
+
+
+def real_rf_overlay_chain(kinds, pos, v):
+    """spec.overlays = an ordered combination of inline overlays and overlayRef (ValueFunction) overlays; the
+    overlay at position `pos` writes the literal to spec.v, every other one writes its own static value to
+    spec.s<i>, `resource` writes spec.base and metadata.labels.  The POST body must carry all of them; then the
+    stored object drifts at spec.base and the PATCH body must carry all of them too."""
+    import drivers
+    overlays, vfs = [], {}
+    sides = [(("spec", "base"), SIDE["base"])] + [(("metadata", "labels", k), x) for k, x in LABELS.items()]
+    for i, k in enumerate(kinds):
+        key, val = ("v", v) if i == pos else (f"s{i}", CHAIN_SIDES[i])
+        if k == "inline":
+            overlays.append({"overlay": {"spec": {key: val}}})
+        else:
+            vfs[f"c11-ov-{i}"] = {"return": {"spec": {key: val}}}
+            overlays.append({"overlayRef": {"kind": "ValueFunction", "name": f"c11-ov-{i}"}})
+        if i != pos:
+            sides.append((("spec", f"s{i}"), val))
+    spec = {"apiConfig": dict(RF_API),
+            "resource": {"metadata": {"labels": dict(LABELS)}, "spec": {"base": SIDE["base"]}},
+            "overlays": overlays, "create": {"delay": 1}}
+
+    async def go():
+        from koreo import cache
+        from koreo.value_function.prepare import prepare_value_function
+        from koreo.value_function.structure import ValueFunction
+        for name, vf_spec in vfs.items():
+            p = await cache.prepare_and_cache(ValueFunction, prepare_value_function,
+                                              {"name": name, "resourceVersion": "1"}, vf_spec)
+            if not isinstance(p, ValueFunction):
+                return ("prepfail", None, None)
+        fn, err = drivers.unwrap_prepared(await drivers.prepare_rf("rf-c11", spec))
+        if fn is None:
+            return ("prepfail", None, None)
+        cl = drivers.Cluster()
+        await drivers.reconcile_rf(fn, {}, cl)
+        posts = [c for c in cl.calls if c["method"] == "POST"]
+        if not posts:
+            return ("evalfail", None, None)
+        patch_body = None
+        try:
+            obj = next(iter(cl.objects.values()))
+            obj["spec"]["base"] = "drifted"
+            await drivers.reconcile_rf(fn, {}, cl)
+            patches = [c for c in cl.calls if c["method"] == "PATCH"]
+            if len(patches) == 1:
+                patch_body = patches[0]["body"]
+        except Exception as e:       # comparison trouble on the update path is C04/C05's matter
+            NOT_OBSERVABLE[f"rf-overlays (PATCH half): raises {type(e).__name__}"] = \
+                NOT_OBSERVABLE.get(f"rf-overlays (PATCH half): raises {type(e).__name__}", 0) + 1
+        return ("ok", posts[0]["body"], patch_body)
+
+    drivers.reset_all()
+    try:
+        st, post_body, patch_body = drivers.run_async(go())
+    except Exception as e:
+        return ("raises", type(e).__name__)
+    finally:
+        drivers.reset_all()
+    if st != "ok":
+        return (st, None)
+    r = _check_body(post_body, v, sides, "POST")
+    if r[0] != "ok" or patch_body is None:
+        return r
+    r2 = _check_body(patch_body, v, sides, "PATCH")
+    if r2[0] != "ok" or delivered_ok(strip_exact_directives(v), r2[1]) is not None:
+        return r2
+    return r
 
 
 def real_rf_create_overlay(v):
@@ -300,16 +411,6 @@ def real_rf_create_overlay(v):
             "overlays": [{"overlay": {"spec": {"o2": SIDE["o2"]}}}],
             "create": {"delay": 1, "overlay": {"spec": {"v": v}}}}
     return _rf_observe(spec, [(("spec", "base"), SIDE["base"]), (("spec", "o2"), SIDE["o2"])])
-
-
-def real_rf_vf_overlay(v):
-    """the literal in the `return` of a ValueFunction used as the first overlay, an inline overlay after it"""
-    spec = {"apiConfig": dict(RF_API), "resource": {"spec": {"base": SIDE["base"]}},
-            "overlays": [{"overlayRef": {"kind": "ValueFunction", "name": "c11-ov"}},
-                         {"overlay": {"spec": {"o2": SIDE["o2"]}}}],
-            "create": {"delay": 1}}
-    return _rf_observe(spec, [(("spec", "base"), SIDE["base"]), (("spec", "o2"), SIDE["o2"])],
-                       value_functions={"c11-ov": {"return": {"spec": {"v": v}}}})
 
 
 OWNER_REFS = [{"apiVersion": "v1", "kind": "Other", "name": "o", "uid": "u-1"}]
@@ -368,7 +469,7 @@ def real_rf_patch(where, v):
                        (("spec", "template", "metadata", "drift"), "target"),
                        (("metadata", "labels", "drift"), "target")]:
         st3, other = _at(body, path)
-        if st3 != "ok" or delivered_ok(want, other) is not None:
+        if st3 != "ok" or delivered_ok(strip_exact_directives(want), other) is not None:
             kind = "literal-lost-from-PATCH-body:" if want is v else "sibling-static-value-lost-from-PATCH-body:"
             return (kind + ".".join(path), other)
     return ("ok", got)
@@ -497,8 +598,9 @@ def real_cache_reprepare(kind, v):
         drivers.reset_all()
     if r[0] != "ok":
         return r
+    want = strip_exact_directives(v) if kind == "rf" else v
     for other in r[2]:                       # the same literal seen at the other observation points
-        if delivered_ok(v, other) is not None:
+        if delivered_ok(want, other) is not None:
             return ("ok", other)
     return ("ok", r[1])
 
@@ -776,8 +878,40 @@ def rand_value(rng, depth=0):
         return [rand_value(rng, depth + 1) for _ in range(rng.choice([0, 1, 2, 3, 5]))]
     d = {}
     for _ in range(rng.choice([0, 1, 2, 3, 4])):
-        d[rand_string(rng, allow_eq=True)] = rand_value(rng, depth + 1)
+        d[rand_key(rng)] = rand_value(rng, depth + 1)
     return d
+
+
+def rand_key(rng):
+    r = rng.random()
+    if r < 0.12:
+        return rng.choice(NEAR_DIRECTIVE_KEYS)          # user data that merely looks like a directive
+    if r < 0.14:
+        return rng.choice(DIRECTIVES)                   # the real names, here as plain data
+    return rand_string(rng, allow_eq=True)
+
+
+def directive_like_value(rng):
+    """maps whose keys are near misses of the three directive names (and now and then the names themselves), at
+    several depths and inside list items"""
+    def leaf():
+        return rng.choice(["kept", 1, True, None, ["a", "b"], {"k": "v"}, 2.5, "12", []])
+
+    def level(depth):
+        d = {}
+        for _ in range(rng.choice([1, 2, 3])):
+            k = rng.choice(NEAR_DIRECTIVE_KEYS) if rng.random() < 0.8 else rng.choice(["plain", "a", "name"])
+            r = rng.random()
+            if depth < 3 and r < 0.3:
+                d[k] = level(depth + 1)
+            elif depth < 3 and r < 0.5:
+                d[k] = [level(depth + 1), leaf()]
+            else:
+                d[k] = leaf()
+        if rng.random() < 0.15:
+            d[rng.choice(DIRECTIVES)] = rng.choice([["a"], [], ["plain", "name"]])
+        return d
+    return level(0)
 
 
 # leaves that are equal for Python's == / hash but are different JSON values: an implementation that de-duplicates,
@@ -785,8 +919,8 @@ def rand_value(rng, depth=0):
 TWINS = [(1, True), (0, False), (1, 1.0), (0, 0.0), (2, 2.0), (-1, -1.0), (1000, 1e3), (True, 1.0), (False, 0.0),
          ([1], [True]), ([0], [False]), ([1, 2], [1.0, 2.0]), ([{"a": 1}], [{"a": True}]), ([[0]], [[False]]),
          (-0.0, 0), (2 ** 53, float(2 ** 53))]
-TWIN_ROUTES = ("direct", "vf-return", "vf-locals", "rf-post", "rf-overlay-first-of-2", "rf-create-overlay",
-               "rf-vf-overlay-return", "wf-step-state", "rf-patch-nested")
+TWIN_ROUTES = ("direct", "vf-return", "vf-locals", "rf-post", "rf-overlays:inline,inline@0", "rf-create-overlay",
+               "rf-overlays:ref,inline@0", "rf-overlays:inline,ref,inline@1", "wf-step-state", "rf-patch-nested")
 
 
 def twin_value(rng):
@@ -968,18 +1102,26 @@ def find_culprit(want, got):
 BASE_ROUTES = ("direct", "vf-return", "vf-locals") + (("rf-post",) if RF_AVAILABLE else ())
 # routes through a whole ResourceFunction pipeline / Workflow (a few ms each): the literal in the first of
 # two / three inline overlays, in create.overlay, in a ValueFunction overlay's return, in step inputs / state
-EXTRA_ROUTES = (("rf-overlay-first-of-3", "rf-patch-nested", "rf-create-overlay", "cache-rf-reprepare",
-                 "wf-step-inputs", "rf-overlay-first-of-2", "rf-patch-metadata", "rf-vf-overlay-return",
+OTHER_ROUTES = (("rf-patch-nested", "rf-create-overlay", "cache-rf-reprepare", "wf-step-inputs", "rf-patch-metadata",
                  "cache-wf-reprepare", "wf-step-state") if RF_AVAILABLE else ())
+EXTRA_ROUTES = OTHER_ROUTES + (CHAIN_ROUTES if RF_AVAILABLE else ())
 ROUTES = BASE_ROUTES + EXTRA_ROUTES
+# routes whose observation is an object sent to the cluster: the three exact directive keys are stripped by design
+STRIPPING_ROUTES = ("rf-post", "rf-create-overlay", "rf-patch-nested", "rf-patch-metadata", "cache-rf-reprepare")
+
+
+def strips_directives(route):
+    return route in STRIPPING_ROUTES or route.startswith("rf-overlays:")
 
 
 def routes_for(k):
-    """all base routes plus four of the ten extra routes in rotation (the corpus gets every route)"""
+    """all base routes, two of the other extra routes and three of the 32 overlay-chain routes in rotation
+    (the corpus gets every route)"""
     if not EXTRA_ROUTES:
         return BASE_ROUTES
-    n = len(EXTRA_ROUTES)
-    return BASE_ROUTES + tuple(EXTRA_ROUTES[(k + j) % n] for j in (0, 1, 2, 3))
+    n, m = len(OTHER_ROUTES), len(CHAIN_ROUTES)
+    return (BASE_ROUTES + tuple(OTHER_ROUTES[(2 * k + j) % n] for j in (0, 1))
+            + tuple(CHAIN_ROUTES[(3 * k + j * 11) % m] for j in (0, 1, 2)))
 
 
 NOT_OBSERVABLE: dict = {}     # route: reason -> count (reported in the evidence distribution)
@@ -1006,14 +1148,10 @@ def deliver(route, v):
         return real_value_function("locals", v)
     if route == "rf-post":
         return real_resource_function_post(v)
-    if route == "rf-overlay-first-of-3":
-        return real_rf_overlays(v, 3)
-    if route == "rf-overlay-first-of-2":
-        return real_rf_overlays(v, 2)
+    if route.startswith("rf-overlays:"):
+        return real_rf_overlay_chain(*parse_chain_route(route), v)
     if route == "rf-create-overlay":
         return real_rf_create_overlay(v)
-    if route == "rf-vf-overlay-return":
-        return real_rf_vf_overlay(v)
     if route == "rf-patch-nested":
         return real_rf_patch("nested", v)
     if route == "rf-patch-metadata":
@@ -1059,7 +1197,7 @@ def route_fails(route, v):
             return (f"{route} -> {st}", f"a static value written in the definition does not reach the "
                                         f"object / result: {st} (literal under test: {describe(v)})", [st, got])
         return (f"{route}: {describe(v)} -> {st}", f"literal is not delivered at all: {st} {got!r}", [st, got])
-    bad = find_culprit(v, got)
+    bad = find_culprit(strip_exact_directives(v) if strips_directives(route) else v, got)
     if bad is None:
         return None
     kind, sub, reason = bad
@@ -1177,6 +1315,12 @@ def gen_values(ctx: Ctx):
     n_f = 150 if quick else 4000
     for _ in range(n_f):
         yield [rand_float(rng)], ("direct",)
+    # keys that look like koreo's comparison directives but are user data
+    yield {k: f"value of {k}" for k in NEAR_DIRECTIVE_KEYS}, ROUTES
+    yield {"items": [{k: i} for i, k in enumerate(NEAR_DIRECTIVE_KEYS)], "deep": {"x-koreo-team": {"x-koreo-": [1]}}}, ROUTES
+    yield {"x-koreo-compare-as-set": ["plain"], "plain": ["b", "a"], "x-koreo-team": "t"}, ROUTES
+    for k in range(60 if quick else 1500):
+        yield directive_like_value(rng), routes_for(k)
     # Python-equal twins (1 / true / 1.0 ...) side by side in one block, along the overlay-style routes
     twin_routes = tuple(r for r in TWIN_ROUTES if r in ROUTES)
     for a, b in TWINS:
